@@ -5,9 +5,10 @@ N == 4
 MCInit == Init /\ next = 1 /\ now = 0 /\ kinds = <<>>
 MCNext == \/ \E k \in {"out", "internal", "in"} : next <= N /\ Put(next, k) /\ next' = next + 1 /\ kinds' = Append(kinds, k) /\ UNCHANGED now
           \/ \E id \in 1..N : StartSend(id, now) /\ UNCHANGED <<next, now, kinds>>
-          \/ \E id \in 1..N : EndSend(id) /\ UNCHANGED <<next, now, kinds>>
+          \/ \E id \in 1..N, ok \in BOOLEAN : EndSend(id, ok, now) /\ UNCHANGED <<next, now, kinds>>
+          \/ Con /\ UNCHANGED <<next, now, kinds>>
           \/ \E id \in 1..N : Done(id) /\ UNCHANGED <<next, now, kinds>>
-          \/ now < 1500 /\ now' = now + 500 /\ UNCHANGED <<vars, next, kinds>>
+          \/ now < 4500 /\ now' = now + 1500 /\ UNCHANGED <<vars, next, kinds>>
 MCSpec == MCInit /\ [][MCNext]_<<vars, next, now, kinds>>
 InternalNeverSent == \A a \in 1..Len(sent) : kinds[sent[a]] = "out"
 =============================================================================
